@@ -120,21 +120,81 @@ def callback_edges(F):
     return edges
 
 
+_TYRX = re.compile(r"(?:riscv_analysis(?:_cli|_lsp)?|rva)::[A-Za-z0-9_:]+")
+_REACH_CACHE = {}
+
+
+def _impl_self_base(F):
+    """impl method path -> base path of the impl's self type (workspace types only)"""
+    out = {}
+    for i in F.impls:
+        base = re.sub(r"<.*", "", i["self_ty"].lstrip("&").replace("mut ", ""))
+        for it in i["items"]:
+            out[it["path"]] = base
+    return out
+
+
 def reachable_bodies(F, roots=None):
+    """Bodies reachable from the entry points over direct calls, CHA-expanded trait calls and callback
+    edges, pruned by rapid type analysis: an impl method reached only through trait dispatch is kept
+    only if its self type is mentioned by some already-reachable body (or a field of a live type)."""
     roots = roots or entry_points(F)
+    ck = (id(F), tuple(roots))
+    if ck in _REACH_CACHE:
+        return _REACH_CACHE[ck]
     cg = F.callgraph()
     cb = callback_edges(F)
+    selfbase = _impl_self_base(F)
+    adt_fields = {}
+    for a in F.adts.values():
+        adt_fields[a["path"]] = set(_TYRX.findall(" ".join(f["ty"] for v in a["variants"] for f in v["fields"])))
+    body_types = {}
+
+    def types_of(p):
+        if p not in body_types:
+            f = F.fns[p]
+            txt = " ".join(l["ty"] for l in f["mir"]["locals"]) if "mir" in f else ""
+            body_types[p] = set(_TYRX.findall(txt))
+        return body_types[p]
     seen, parent = set(), {}
+    live = set()
+    deferred = {}          # callee -> caller, waiting for its self type to become live
     st = list(roots)
-    while st:
-        p = st.pop()
-        if p in seen:
-            continue
-        seen.add(p)
-        for q in list(cg.get(p, ())) + list(cb.get(p, ())):
-            if q not in seen and q in F.fns:
+
+    def add_types(ts):
+        new = [t for t in ts if t not in live]
+        while new:
+            t = new.pop()
+            if t in live:
+                continue
+            live.add(t)
+            for u in adt_fields.get(t, ()):
+                if u not in live:
+                    new.append(u)
+    while True:
+        while st:
+            p = st.pop()
+            if p in seen or p not in F.fns:
+                continue
+            seen.add(p)
+            add_types(types_of(p))
+            for q in list(cg.get(p, ())) + list(cb.get(p, ())):
+                if q in seen or q not in F.fns:
+                    continue
+                dispatch = (p, q) in F._generic_edges or q in cb.get(p, ())
+                base = selfbase.get(q.split("::{closure")[0])
+                if dispatch and base and base.startswith(("riscv_analysis", "rva")) and base not in live:
+                    deferred.setdefault(q, p)
+                    continue
                 parent.setdefault(q, p)
                 st.append(q)
+        woke = [q for q in deferred if selfbase.get(q.split("::{closure")[0]) in live and q not in seen]
+        if not woke:
+            break
+        for q in woke:
+            parent.setdefault(q, deferred.pop(q))
+            st.append(q)
+    _REACH_CACHE[ck] = (seen, parent)
     return seen, parent
 
 
